@@ -75,9 +75,10 @@ FEATURES = {
     "builtin_case": "message M { int32 Int = 1; int32 a = 2; repeated int32 b = 3; string STR = 4; string c = 5; bytes Bytes = 6; map<string, bytes> d = 7; optional int32 e = 8; }",
     # enum values that are Python keywords, with and without the enum-name prefix
     "enum_keyword_members": "enum E { None = 0; True = 1; class = 2; lambda = 3; E_in = 4; E_False = 5; } message M { E e = 1; repeated E r = 2; }",
-    # aliases (several names for one number) and enums of the well-known types as field types
+    # aliases (several names for one number) and enums of the well-known types as field types (not NullValue: its JSON form
+    # is the special value null, part of the Struct/Value mapping that is outside the grammar)
     "enum_alias": "enum E { option allow_alias = true; E_OFF = 0; E_DISABLED = 0; E_ON = 1; E_ENABLED = 1; E_NEG = -3; E_MINUS = -3; } message M { E e = 1; repeated E r = 2; optional E o = 3; oneof g { E x = 4; int32 y = 5; } map<string, E> m = 6; }",
-    "wkt_enum": 'import "google/protobuf/struct.proto"; import "google/protobuf/type.proto"; message M { google.protobuf.NullValue n = 1; google.protobuf.Syntax s = 2; repeated google.protobuf.Syntax rs = 3; optional google.protobuf.Syntax os = 4; oneof g { google.protobuf.Syntax gs = 5; int32 gi = 6; } }',
+    "wkt_enum": 'import "google/protobuf/struct.proto"; import "google/protobuf/type.proto"; message M { google.protobuf.Field.Kind n = 1; google.protobuf.Syntax s = 2; repeated google.protobuf.Syntax rs = 3; optional google.protobuf.Syntax os = 4; oneof g { google.protobuf.Syntax gs = 5; int32 gi = 6; } }',
     "builtin_list_dict": "message M { int32 list = 1; repeated int32 a = 2; map<string, int32> dict = 3; map<string, int32> m = 4; optional int32 o = 5; }",
     "builtin_int": "message M { int64 int = 1; repeated int32 a = 2; optional int64 b = 3; map<string, sint32> c = 4; oneof g { uint32 d = 5; string e = 6; } }",
     "builtin_str": "message M { string str = 1; repeated string a = 2; optional string b = 3; map<string, string> c = 4; oneof g { string d = 5; int32 e = 6; } }",
